@@ -14,8 +14,9 @@ sentinel : an exit of a @leftrec wrapper cannot return the seed sentinel.
 import re
 
 from .. import mir
-from ..mir import short, last, strip, walk, norm, is_call
-from . import common, memo, c04
+from .. import sem
+from ..mir import short, last, strip, walk, norm, is_call, mk
+from . import common, memo, c04, semspec
 
 LEVEL = "other"
 
@@ -178,6 +179,9 @@ class Fold:
             # is this a post-move drop-elaboration switch?  (discr read after payload moves)
             if any(b.dominates(pb, db) for pb in (payload_blocks | ok_payload_blocks)):
                 continue
+            moved = payload_blocks | ok_payload_blocks
+            if moved and db not in b.reachable_from(start_bb, avoid=list(moved)) and db not in moved:
+                continue     # every path to this re-read has already moved a payload out (join of the match arms)
             handled_err_edges[sw] = err_t
         if handled_err_edges:
             allgood = True
@@ -280,7 +284,7 @@ def check_fold(cx, chk):
             n_inst += n
         total += n_inst
         chk.ok("C10.fold", inst.name, {"instance": inst.name, "error_bearing_values_tracked": n_inst})
-    chk.floor("C10.fold", "error-bearing values tracked in generated code", total, 2795)
+    chk.floor("C10.fold", "error-bearing values tracked in generated code", total, 1500)
     # runtime helpers
     rt = cx.runtime
     nrt = 0
@@ -303,172 +307,241 @@ def ret_expr(cx, crate, suffix):
     return b, ps[0]
 
 
-def check_max(cx, chk):
-    rt = cx.runtime
-    b, p = ret_expr(cx, rt, "ParseState::record_error")
-    if b is None:
-        chk.anchor_missing("C10.max", "ParseState::record_error")
-        return
-    # structure: writes to self.farthest_error only; decision on Le(old.position, new.position)
-    writes = []
-    for i in sorted(b.reach):
-        for st in b.blocks[i]["stmts"]:
-            if st["k"] != "assign":
-                continue
-            pl = st["place"]
-            if pl["l"] == 1 and pl["p"]:
-                writes.append((i, "self." + ".".join(str(pe.get("name")) for pe in pl["p"] if pe["k"] == "field"), norm(b.expr_rv(st["rv"]))))
-            elif pl["p"] and pl["p"][0]["k"] == "deref":
-                tgt = norm(b.expr_local(pl["l"]))
-                writes.append((i, mir.show(tgt), norm(b.expr_rv(st["rv"]))))
-    new = ("param", 2)
-    decided = {}
-    problems = []
-    for (i, tgt, val) in writes:
-        at = b.atoms(i)
-        none_case = any(e[0] == "discr" and v == 0 for (e, v, d) in at)
-        some_case = any(e[0] == "discr" and v == 1 for (e, v, d) in at)
-        if "farthest_error" not in tgt:
-            problems.append("writes %s" % tgt)
-            continue
-        if none_case:
-            if val[0] == "agg" and val[2] == "Some" and val[3][0][1] == new:
-                decided["none"] = "new"
-            else:
-                problems.append("None case stores %s" % mir.show(val))
-        elif some_case:
-            cmpa = [(e, v) for (e, v, d) in at if e[0] == "binop"]
-            if val != new or len(cmpa) != 1:
-                problems.append("Some case: unrecognised update %s under %s" % (mir.show(val), [mir.show(e) for e, v in cmpa]))
-                continue
-            e, v = cmpa[0]
-            op = e[1]
+def _all_return(chk, cx, rule, name, sm, b):
+    bad = [l for l in sm.leaves if l.kind != "return"]
+    if bad:
+        chk.violation(rule, "%s %s-path" % (name, bad[0].kind), "%s has a path that ends in a %s instead of returning: %s"
+                      % (name, bad[0].kind, bad[0].show()[:300]), cx.site(b))
+        return False
+    return True
 
-            def side(x):
-                if x[0] == "field" and x[2] == "position":
-                    return "new" if x[1] == new else "old"
-                return None
-            sa, sb = side(e[2]), side(e[3])
-            if {sa, sb} != {"new", "old"}:
-                problems.append("comparison is not between the two positions: %s" % mir.show(e))
+
+def check_max(cx, chk):
+    """record_error / report_error / report_farthest_error decided from their semantic summaries (sem.py):
+    every leaf of the decision tree is classified by the cases {no previous error, old<new, old=new, old>new}
+    and its returned state is compared field by field with the specification."""
+    rt = cx.runtime
+    P1, P2 = mk("param", 1), mk("param", 2)
+    OLD = mk("field", P1, "farthest_error")
+    OLDV = mk("field", mk("downcast", OLD, "Some"), "0")
+    oldpos = mk("field", OLDV, "position")
+    names = semspec.adt_fields(rt, "state::ParseState")
+    if not names or "farthest_error" not in names:
+        chk.anchor_missing("C10.max", "struct ParseState with a farthest_error field")
+        return
+    want = {"none": {"new"}, "old<new": {"new"}, "old=new": {"new"}, "old>new": {"old"}}
+
+    def decide(sm, S, newpos, classify):
+        """decision table {case: set of outcomes}, problems"""
+        decided = {k: set() for k in want}
+        problems = []
+        for leaf in sm.leaves:
+            if leaf.kind != "return":
                 continue
-            for name, (o, n_) in {"old<new": (0, 1), "old=new": (1, 1), "old>new": (2, 1)}.items():
-                l_, r_ = (o, n_) if sa == "old" else (n_, o)
-                res = {"Gt": l_ > r_, "Ge": l_ >= r_, "Lt": l_ < r_, "Le": l_ <= r_, "Eq": l_ == r_, "Ne": l_ != r_}[op]
-                decided[name] = "new" if res == v else "old"
-    want = {"none": "new", "old<new": "new", "old=new": "new", "old>new": "old"}
-    rets = [norm(b.expr_rv(d[3])) for d in b.defs.get(0, []) if d[2] == "rv"]
-    if rets != [("param", 1)] and rets != [("local", 1)]:
-        problems.append("does not return self: %s" % [mir.show(r) for r in rets])
-    if decided == want and not problems:
-        chk.ok("C10.max", "record_error", {"decision_table": decided})
+            cases = []
+            dc = semspec.discr_case(leaf, OLD)
+            if dc in (None, 0):
+                cases.append("none")
+            if dc in (None, 1):
+                for (nm, env) in semspec.order_models(oldpos, newpos):
+                    okm = True
+                    for (a, v) in leaf.assume:
+                        if a == mk("discr", OLD):
+                            continue
+                        r = semspec.eval_cmp(a, env)
+                        if r is None:
+                            if ("depends", a) not in problems:
+                                problems.append(("depends", a))
+                            continue
+                        if r != v:
+                            okm = False
+                            break
+                    if okm:
+                        cases.append("old%snew" % nm)
+            out = classify(leaf, semspec.Eta(S, leaf))
+            for c in cases:
+                decided[c].add(out)
+        return decided, problems
+
+    # ---- record_error
+    p = semspec.find_fn(rt, "ParseState::record_error")
+    if p is None:
+        chk.anchor_missing("C10.max", "ParseState::record_error")
     else:
-        chk.violation("C10.max", "record_error", "record_error does not keep the error with the larger-or-equal position: "
-                      "decided %s, expected %s; %s" % (decided, want, problems), cx.site(b))
-    # report_error
-    b, p = ret_expr(cx, rt, "ParseState::report_error")
-    if b is None:
+        b = cx.body(rt, p)
+        S = sem.Sem(cx, rt)
+        try:
+            sm = S.summarize(p)
+        except sem.SemLimit as ex:
+            sm = None
+            chk.violation("C10.max", "record_error unsummarised", "record_error could not be summarised: %s" % ex, cx.site(b))
+        if sm is not None and _all_return(chk, cx, "C10.max", "record_error", sm, b):
+            def classify(leaf, eta):
+                fs = semspec.fields(leaf.ret, names)
+                for n in names:
+                    if n != "farthest_error" and fs[n] != mk("field", P1, n):
+                        return "changes %s" % n
+                fe = fs["farthest_error"]
+                if eta.same(fe, sem.some(P2)):
+                    return "new"
+                if eta.same(fe, OLD):
+                    return "old"
+                return "stores %s" % mir.show(fe)[:80]
+            decided, problems = decide(sm, S, mk("field", P2, "position"), classify)
+            if decided == want and not problems:
+                chk.ok("C10.max", "record_error", {"decision_table": {k: sorted(v) for k, v in decided.items()}, "leaves": len(sm.leaves)})
+            else:
+                chk.violation("C10.max", "record_error", "record_error does not keep the error with the larger-or-equal position: "
+                              "decided %s, expected %s; %s" % ({k: sorted(v) for k, v in decided.items()}, {k: sorted(v) for k, v in want.items()},
+                                                               [mir.show(a)[:80] for (_, a) in problems]), cx.site(b))
+    # ---- report_error: (inlined through record_error / report_farthest_error) returns the error at the state's own offset unless
+    #      a strictly farther one is recorded
+    p = semspec.find_fn(rt, "ParseState::report_error")
+    if p is None:
         chk.anchor_missing("C10.max", "ParseState::report_error")
     else:
-        ds = b.defs.get(0, [])
-        e = norm(b.expr_call(ds[0][3])) if len(ds) == 1 and ds[0][2] == "call" else None
-        good = False
-        if e is not None and is_call(e, "report_farthest_error") and len(e[2]) == 1 and is_call(e[2][0], "record_error"):
-            st, er = e[2][0][2]
-            if st == ("param", 1) and er[0] == "agg" and er[1].endswith("ParseError"):
-                d = dict(er[3])
-                pos = d.get("position")
-                if pos == ("field", ("param", 1), "start_index") and d.get("specifics") == ("param", 2):
-                    good = True
-        if good:
-            chk.ok("C10.max", "report_error", {"report_error": mir.show(e)})
-        else:
-            chk.violation("C10.max", "report_error", "report_error is not report_farthest_error(record_error(self, "
-                          "ParseError{position: self.start_index, specifics})): %s" % (mir.show(e) if e else "?"), cx.site(b))
-    b, p = ret_expr(cx, rt, "ParseState::report_farthest_error")
-    if b is None:
+        b = cx.body(rt, p)
+        S = sem.Sem(cx, rt, inline=lambda q: last(q) in ("record_error", "report_farthest_error"))
+        try:
+            sm = S.summarize(p)
+        except sem.SemLimit as ex:
+            sm = None
+            chk.violation("C10.max", "report_error unsummarised", "report_error could not be summarised: %s" % ex, cx.site(b))
+        if sm is not None and _all_return(chk, cx, "C10.max", "report_error", sm, b):
+            here = mk("field", P1, "start_index")
+
+            def classify(leaf, eta):
+                r = leaf.ret
+                if r[0] == "agg" and r[1].endswith("ParseError"):
+                    d = dict(r[3])
+                    if d.get("position") == here and d.get("specifics") == P2:
+                        return "new"
+                    return "builds %s" % mir.show(r)[:80]
+                if eta.same(r, OLDV):
+                    return "old"
+                return "returns %s" % mir.show(r)[:80]
+            decided, problems = decide(sm, S, here, classify)
+            if decided == want and not problems:
+                chk.ok("C10.max", "report_error", {"decision_table": {k: sorted(v) for k, v in decided.items()}, "leaves": len(sm.leaves)})
+            else:
+                chk.violation("C10.max", "report_error", "report_error does not return the error {position: self.start_index, specifics} unless a strictly "
+                              "farther one is recorded: decided %s; %s" % ({k: sorted(v) for k, v in decided.items()}, [mir.show(a)[:80] for (_, a) in problems]), cx.site(b))
+    # ---- report_farthest_error
+    p = semspec.find_fn(rt, "ParseState::report_farthest_error")
+    if p is None:
         chk.anchor_missing("C10.max", "ParseState::report_farthest_error")
     else:
-        ds = b.defs.get(0, [])
-        e = norm(b.expr_call(ds[0][3])) if len(ds) == 1 and ds[0][2] == "call" else None
-        good = False
-        if e is not None and is_call(e, "unwrap_or") and len(e[2]) == 2:
-            src, dfl = e[2]
-            if src == ("field", ("param", 1), "farthest_error") and dfl[0] == "agg" and dict(dfl[3]).get("position") == ("field", ("param", 1), "start_index"):
-                good = True
-        if good:
-            chk.ok("C10.max", "report_farthest_error", {"report_farthest_error": mir.show(e)})
-        else:
-            chk.violation("C10.max", "report_farthest_error", "report_farthest_error is not farthest_error.unwrap_or(error at "
-                          "self.start_index): %s" % (mir.show(e) if e else "?"), cx.site(b))
+        b = cx.body(rt, p)
+        S = sem.Sem(cx, rt)
+        try:
+            sm = S.summarize(p)
+        except sem.SemLimit as ex:
+            sm = None
+            chk.violation("C10.max", "report_farthest_error unsummarised", str(ex), cx.site(b))
+        if sm is not None and _all_return(chk, cx, "C10.max", "report_farthest_error", sm, b):
+            probs = []
+            for leaf in sm.leaves:
+                dc = semspec.discr_case(leaf, OLD)
+                eta = semspec.Eta(S, leaf)
+                r = leaf.ret
+                is_here = r[0] == "agg" and r[1].endswith("ParseError") and dict(r[3]).get("position") == mk("field", P1, "start_index")
+                is_old = eta.same(r, OLDV)
+                if dc == 1 and not is_old:
+                    probs.append("with a recorded error it returns %s" % mir.show(r)[:100])
+                if dc == 0 and not is_here:
+                    probs.append("without a recorded error it returns %s" % mir.show(r)[:100])
+                if dc is None:
+                    probs.append("does not look at the recorded error: %s" % mir.show(r)[:100])
+            if not probs:
+                chk.ok("C10.max", "report_farthest_error", {"leaves": len(sm.leaves), "table": "Some(e) -> e ; None -> error at self.start_index"})
+            else:
+                chk.violation("C10.max", "report_farthest_error", "report_farthest_error is not {Some(e) => e, None => error at self.start_index}: %s" % sorted(set(probs)), cx.site(b))
 
 
 def check_choice(cx, chk):
+    """ChoiceHelper decided from its semantic summary: a leaf per case (already matched / alternative succeeds / alternative fails)."""
     rt = cx.runtime
-    b, p = ret_expr(cx, rt, "ChoiceHelper::choice")
-    if b is None:
+    P1, P2 = mk("param", 1), mk("param", 2)
+    RES, STATE = mk("field", P1, "result"), mk("field", P1, "state")
+    p = semspec.find_fn(rt, "ChoiceHelper::choice")
+    if p is None:
         chk.anchor_missing("C10.choice", "ChoiceHelper::choice")
         return
-    SELF = ("local", 1) if (1 in b.pdefs or b.defs.get(1)) else ("param", 1)
-    # the arm call: an indirect / FnOnce call of param 2
-    arm = [(i, t) for i, t in b.calls() if (t["func"].get("indirect") or last(t["func"]["path"]) in ("call_once", "call_mut", "call"))]
+    b = cx.body(rt, p)
+    S = sem.Sem(cx, rt)
+    try:
+        sm = S.summarize(p)
+    except sem.SemLimit as ex:
+        chk.violation("C10.choice", "ChoiceHelper::choice unsummarised", str(ex), cx.site(b))
+        return
     problems = []
-    if len(arm) != 1:
-        problems.append("expected exactly one call of the alternative, found %d" % len(arm))
-    else:
-        ai, at = arm[0]
-        atoms = b.atoms(ai)
-        guard = [(e, v) for (e, v, d) in atoms if is_call(e, "is_none") and v is True and e[2][0] == ("field", SELF, "result")]
-        guard2 = [(e, v) for (e, v, d) in atoms if e[0] == "discr" and e[1] == ("field", SELF, "result") and v == 0]
-        if not guard and not guard2:
-            problems.append("the alternative is not guarded by `self.result.is_none()` (first success must win)")
-        args = norm(b.expr_op(at["args"][1])) if len(at["args"]) > 1 else None
-        # args is a tuple (state.clone(),)
-        a = args[1][0] if args is not None and args[0] == "tuple" and args[1] else args
-        if not (a is not None and is_call(a, "clone") and a[2][0] == ("field", SELF, "state")):
-            problems.append("the alternative is not started from a clone of the helper's entry state: %s" % (mir.show(a) if a else "?"))
-        # result handling
-        rl = at["dest"]["l"]
-        stores = []
-        for i in sorted(b.reach):
-            for st in b.blocks[i]["stmts"]:
-                if st["k"] == "assign" and st["place"]["l"] == 1 and st["place"]["p"]:
-                    fld = [pe["name"] for pe in st["place"]["p"] if pe["k"] == "field"]
-                    stores.append((fld[-1] if fld else "?", norm(b.expr_rv(st["rv"])), i))
-        res_store = [s for s in stores if s[0] == "result"]
-        st_store = [s for s in stores if s[0] == "state"]
-        R = norm(b.expr_local(rl))
-        if not (len(res_store) == 1 and res_store[0][1][0] == "agg" and res_store[0][1][2] == "Some"
-                and res_store[0][1][3][0][1] == ("field", ("downcast", R, "Ok"), "0")):
-            problems.append("a successful alternative is not stored unchanged: %s" % [mir.show(s[1]) for s in res_store])
-        okfold = False
-        for s in st_store:
-            e = s[1]
-            if is_call(e, "record_error") and len(e[2]) == 2 and e[2][0] == ("field", SELF, "state") \
-                    and e[2][1] == ("field", ("downcast", R, "Err"), "0"):
-                okfold = True
-        if not okfold:
-            problems.append("a failed alternative's error is not folded into the helper state with record_error: %s"
-                            % [mir.show(s[1]) for s in st_store])
-    if problems:
-        for pr in problems:
-            chk.violation("C10.choice", "ChoiceHelper::choice " + pr.split(":")[0][:70], pr, cx.site(b))
-    else:
-        chk.ok("C10.choice", "ChoiceHelper::choice", {"guard": "result.is_none()", "start": "state.clone()", "ok": "result = Some(ok)", "err": "state = state.record_error(err)"})
-    b, p = ret_expr(cx, rt, "ChoiceHelper::end")
-    if b is None:
+    if _all_return(chk, cx, "C10.choice", "ChoiceHelper::choice", sm, b):
+        for leaf in sm.leaves:
+            eta = semspec.Eta(S, leaf)
+            fs = semspec.fields(leaf.ret, ["state", "result"])
+            arms = [ev for ev in leaf.trace if ev[0][0] == "icall" and ev[0][1] == P2]
+            dc = semspec.discr_case(leaf, RES)
+            if dc == 1:
+                if arms:
+                    problems.append("the alternative is not guarded by `self.result.is_none()` (first success must win)")
+                if not (eta.same(fs["result"], RES) and fs["state"] == STATE):
+                    problems.append("an already matched helper is changed: %s" % mir.show(leaf.ret)[:120])
+                continue
+            if dc is None and arms:
+                problems.append("the alternative is not guarded by `self.result.is_none()` (first success must win)")
+            if len(arms) != 1:
+                problems.append("expected exactly one call of the alternative, found %d" % len(arms))
+                continue
+            call = arms[0][0]
+            if tuple(call[2]) != (STATE,):
+                problems.append("the alternative is not started from a clone of the helper's entry state: %s" % mir.show(call)[:120])
+            rc = semspec.discr_case(leaf, call)
+            if rc == 0:
+                if not eta.same(fs["result"], sem.some(mk("field", mk("downcast", call, "Ok"), "0"))) or fs["state"] != STATE:
+                    problems.append("a successful alternative is not stored unchanged: %s" % mir.show(leaf.ret)[:160])
+            elif rc == 1:
+                e = mk("field", mk("downcast", call, "Err"), "0")
+                st = fs["state"]
+                if not (is_call(st, "record_error") and tuple(st[2]) == (STATE, e)):
+                    problems.append("a failed alternative's error is not folded into the helper state with record_error: %s" % mir.show(st)[:160])
+                if not eta.same(fs["result"], RES):
+                    problems.append("a failed alternative changes the stored result: %s" % mir.show(fs["result"])[:100])
+            else:
+                problems.append("the outcome of the alternative is not examined: %s" % leaf.show()[:160])
+        if problems:
+            for pr in sorted(set(problems)):
+                chk.violation("C10.choice", "ChoiceHelper::choice " + pr.split(":")[0][:70], pr, cx.site(b))
+        else:
+            chk.ok("C10.choice", "ChoiceHelper::choice", {"leaves": len(sm.leaves), "table": "Some -> unchanged; None & Ok(r) -> result=Some(r); None & Err(e) -> state=record_error(state,e)"})
+    p = semspec.find_fn(rt, "ChoiceHelper::end")
+    if p is None:
         chk.anchor_missing("C10.choice", "ChoiceHelper::end")
         return
-    rets = []
-    for d in b.defs.get(0, []):
-        rets.append(norm(b.expr_rv(d[3]) if d[2] == "rv" else b.expr_call(d[3])))
-    okr = any(r[0] == "agg" and r[2] == "Ok" and r[3][0][1] == ("field", ("downcast", ("field", ("param", 1), "result"), "Some"), "0") for r in rets)
-    oke = any(r[0] == "agg" and r[2] == "Err" and is_call(r[3][0][1], "report_farthest_error") and r[3][0][1][2][0] == ("field", ("param", 1), "state") for r in rets)
-    if okr and oke and len(rets) == 2:
-        chk.ok("C10.choice", "ChoiceHelper::end", {"end": [mir.show(r) for r in rets]})
-    else:
-        chk.violation("C10.choice", "ChoiceHelper::end", "end() is not {Some(ok) => Ok(ok), None => Err(state.report_farthest_error())}: %s"
-                      % [mir.show(r) for r in rets], cx.site(b))
+    b = cx.body(rt, p)
+    try:
+        sm = S.summarize(p)
+    except sem.SemLimit as ex:
+        chk.violation("C10.choice", "ChoiceHelper::end unsummarised", str(ex), cx.site(b))
+        return
+    if _all_return(chk, cx, "C10.choice", "ChoiceHelper::end", sm, b):
+        probs = []
+        for leaf in sm.leaves:
+            eta = semspec.Eta(S, leaf)
+            dc = semspec.discr_case(leaf, RES)
+            r = leaf.ret
+            if dc == 1:
+                if not eta.same(r, sem.ok(mk("field", mk("downcast", RES, "Some"), "0"))):
+                    probs.append("Some(ok) gives %s" % mir.show(r)[:100])
+            elif dc == 0:
+                good = r[0] == "agg" and r[2] == "Err" and is_call(r[3][0][1], "report_farthest_error") and tuple(r[3][0][1][2]) == (STATE,)
+                if not good:
+                    probs.append("None gives %s" % mir.show(r)[:100])
+            else:
+                probs.append("result not examined: %s" % mir.show(r)[:100])
+        if not probs:
+            chk.ok("C10.choice", "ChoiceHelper::end", {"leaves": len(sm.leaves), "table": "Some(ok) -> Ok(ok); None -> Err(state.report_farthest_error())"})
+        else:
+            chk.violation("C10.choice", "ChoiceHelper::end", "end() is not {Some(ok) => Ok(ok), None => Err(state.report_farthest_error())}: %s" % sorted(set(probs)), cx.site(b))
 
 
 def check_at(cx, chk):
@@ -496,7 +569,7 @@ def check_at(cx, chk):
             else:
                 chk.violation("C10.at", tag, "a terminal matcher reports its failure on %s, not on the unadvanced entry state: "
                               "the error offset would not be the offset of the attempt" % mir.show(st), cx.site(b, i))
-    chk.floor("C10.at", "terminal failure reports", n, 10)
+    chk.floor("C10.at", "terminal failure reports", n, 6)
 
 
 def check_sentinel(cx, chk):
@@ -584,7 +657,7 @@ def check_look(cx, chk):
                     chk.violation("C10.look", "%s %s" % (tag, pr.split(" returns ")[0][:50]), pr, cx.site(b))
             else:
                 chk.ok("C10.look", "%s/%s" % (inst.name, rest), {"fn": "%s/%s" % (inst.name, rest), "kind": kind, "ok_state": "entry state"})
-    chk.floor("C10.look", "lookahead functions", n, 12)
+    chk.floor("C10.look", "lookahead functions", n, 8)
 
 
 def run(cx, chk):
